@@ -125,12 +125,22 @@ fn handle_client(stream: TcpStream, dbs: Arc<Databases>) {
                     },
                 }
                 buf.clear();
+                // The answers go out as they are produced: a client that sends more lines at once
+                // than the session's channel holds would lose the answers that do not fit
+                while write_next_message(&mut receiver, writer) {}
             }
             _ => process_message(&mut receiver, writer),
         }
     }
 }
 fn process_message(receiver: &mut Receiver<String>, writer: &mut BufWriter<&TcpStream>) {
+    if !write_next_message(receiver, writer) {
+        thread::sleep(time::Duration::from_millis(2));
+    }
+}
+
+/// Writes the next queued message to the socket, false if there was none
+fn write_next_message(receiver: &mut Receiver<String>, writer: &mut BufWriter<&TcpStream>) -> bool {
     match receiver.try_next() {
         Ok(message_opt) => match message_opt {
             Some(message) => {
@@ -139,9 +149,13 @@ fn process_message(receiver: &mut Receiver<String>, writer: &mut BufWriter<&TcpS
                     Ok(_n) => (),
                     Err(e) => log::warn!("process_message Error: {}", e),
                 }
+                true
             }
-            None => log::debug!("tcp_ops::process_message::Empty message"),
+            None => {
+                log::debug!("tcp_ops::process_message::Empty message");
+                false
+            }
         },
-        _ => thread::sleep(time::Duration::from_millis(2)),
+        _ => false,
     }
 }
